@@ -300,9 +300,66 @@ pub fn execute(p: &Prepared, funcs: &BTreeMap<String, J>) -> Executed {
     Executed { out, log, bind_after_ok }
 }
 
+/// Run one case in a child process (a stack overflow or abort must not take the harness down).
+pub fn run_case_in_child(case: &Case, seed: u64) -> J {
+    use std::io::Write;
+    use std::process::{Command, Stdio};
+    let exe = std::env::current_exe().expect("exe");
+    let mut child = Command::new(exe)
+        .arg("child")
+        .arg("--seed")
+        .arg(seed.to_string())
+        .stdin(Stdio::piped())
+        .stdout(Stdio::piped())
+        .stderr(Stdio::null())
+        .spawn()
+        .expect("spawn child");
+    {
+        let mut stdin = child.stdin.take().unwrap();
+        let mut c = case.clone();
+        if let Some(o) = c.extra.as_object_mut() {
+            o.remove("child");
+        }
+        writeln!(stdin, "{}", c.to_json()).unwrap();
+    }
+    // the child enforces its own 60 s watchdog (exit code 97)
+    let out = child.wait_with_output().expect("child output");
+    let text = String::from_utf8_lossy(&out.stdout);
+    if out.status.success() {
+        if let Some(line) = text.lines().find(|l| l.starts_with('{')) {
+            if let Ok(j) = serde_json::from_str::<J>(line) {
+                return j;
+            }
+        }
+    }
+    let what = if out.status.code() == Some(97) { "timeout in child".to_string() } else { format!("child died: {:?}", out.status) };
+    let mut j = case.to_json();
+    j["obs"] = J::Array(case.forms.iter().map(|f| json!({"form": f, "src": "", "out": crash(&what), "log": []})).collect());
+    j
+}
+
 pub fn run_case(case: &Case, rng: &mut Rng) -> J {
+    if case.extra.get("child").and_then(|c| c.as_bool()) == Some(true) {
+        return run_case_in_child(case, rng.next());
+    }
     let mut obs = Vec::new();
     for form in case.forms.iter() {
+        if form == "thread" {
+            // the same evaluation on a spawned thread with a 2 MB stack
+            let p = prepare(case, "bound", rng);
+            let funcs = case.funcs.clone();
+            let src = p.main_src.clone();
+            let h = std::thread::Builder::new().stack_size(2 * 1024 * 1024).spawn(move || {
+                let e = execute(&p, &funcs);
+                (e.out, e.log, e.bind_after_ok)
+            });
+            let (out, log, ok) = match h.map(|h| h.join()) {
+                Ok(Ok(r)) => r,
+                _ => (crash("thread died"), vec![], true),
+            };
+            obs.push(json!({"form": form, "src": src, "out": out, "log": log, "bind_ok": ok}));
+            continue;
+        }
         let p = prepare(case, form, rng);
         let e = execute(&p, &case.funcs);
         obs.push(json!({"form": form, "src": p.main_src, "out": e.out, "log": e.log, "bind_ok": e.bind_after_ok}));
